@@ -550,3 +550,72 @@ func tellRetry(st *Store, rs io.ReadSeeker) (p int64, err error) {
 	}
 	return
 }
+
+// Small leaves that a writer inlined (identity CIDs: the block is the link) in a file read through a link system whose raw
+// codec frames its blocks: the inlined block is longer than the content it carries, and the sizes the reader positions by
+// are the recorded ones (BlockSizes / Tsize = content length). Every positioned read returns content[off:].
+func TestC04_R_InlinedLeavesUnderFramingRawCodecs(t *testing.T) {
+	for _, env := range []int{0, 1, 3, RawEnvelopeUvarint, RawEnvelopeStuffed} {
+		for _, layout := range []string{"all-inlined", "alternating", "two-levels"} {
+			st := NewStore()
+			st.RawEnvelope = env
+			st.RawEnvelopeRead = true
+			ls := st.LinkSystem()
+			var content []byte
+			var kids []*mnode
+			var sizes []uint64
+			for i := 0; i < 9; i++ {
+				c := lcgBytes(1+(i*5)%7, byte(i)+3, 0)
+				if i == 4 {
+					c = []byte{0x7D, 0x7D, 0x01, 0x7D} // (bytes the stuffing codec escapes)
+				}
+				content = append(content, c...)
+				kids = append(kids, &mnode{IsRaw: true, Raw: c, Inline: layout != "alternating" || i%2 == 0})
+				sizes = append(sizes, uint64(len(c)))
+			}
+			node := func(ks []*mnode, ss []uint64) (*mnode, uint64) {
+				m := &mnode{HasData: true, UFS: &ufsFields{Type: 2}}
+				tot := uint64(0)
+				for i, k := range ks {
+					m.Links = append(m.Links, mlink{Tsize: i64p(int64(ss[i])), Child: k})
+					m.UFS.BlockSizes = append(m.UFS.BlockSizes, ss[i])
+					tot += ss[i]
+				}
+				m.UFS.FileSize = u64p(tot)
+				return m, tot
+			}
+			var root *mnode
+			if layout == "two-levels" {
+				a, as := node(kids[:4], sizes[:4])
+				b, bs := node(kids[4:], sizes[4:])
+				root, _ = node([]*mnode{a, b}, []uint64{as, bs})
+			} else {
+				root, _ = node(kids, sizes)
+			}
+			c, err := root.store(st, ls)
+			if err != nil {
+				t.Fatalf("harness: %v", err)
+			}
+			rn, err := loadReified(ls, c, "unixfs")
+			if err != nil {
+				t.Fatalf("C04: inlined leaves, envelope %d, %s: %v", env, layout, err)
+			}
+			for off := 0; off <= len(content); off++ {
+				rs, err := rn.(datamodel.LargeBytesNode).AsLargeBytes()
+				if err != nil {
+					t.Fatal(err)
+				}
+				if p, err := rs.Seek(int64(off), io.SeekStart); err != nil || p != int64(off) {
+					t.Fatalf("C04: inlined leaves, envelope %d, %s: Seek(%d) = %d, %v", env, layout, off, p, err)
+				}
+				got, err := io.ReadAll(rs)
+				if err != nil || !bytes.Equal(got, content[off:]) {
+					t.Fatalf("C04: inlined leaves under a framing raw codec (envelope %d, %s): after Seek(%d) the rest reads as %x (err %v), the content there is %x", env, layout, off, got, err, content[off:])
+				}
+				if p, err := rs.Seek(0, io.SeekEnd); err != nil || p != int64(len(content)) {
+					t.Fatalf("C04: inlined leaves, envelope %d, %s: Seek(0, end) = %d, %v; length %d", env, layout, p, err, len(content))
+				}
+			}
+		}
+	}
+}
